@@ -810,8 +810,12 @@ fn parse_simple_expression(
                 // immediately after the name, to avoid ambiguity.
                 //
                 // TODO: arguably this should be done in the lexer.
+                //
+                // A keyword can't be a struct name. Treating `else{`
+                // as a struct literal would never consume the keyword.
                 if token.text == "{"
                     && prev_token.position.end_offset == token.position.start_offset
+                    && !KEYWORDS.contains(&prev_token.text)
                 {
                     return parse_struct_literal(tokens, id_gen, diagnostics);
                 }
